@@ -20,6 +20,8 @@ def AND(
     for logical in logicals:
         val = logical()
         for item in xl.flatten([val]):
+            if isinstance(item, xlerrors.ExcelError):
+                return item
             if func_xltypes.Blank.is_blank(item):
                 continue
             if not bool(item):
@@ -56,6 +58,8 @@ def OR(
     for logical in logicals:
         val = logical()
         for item in xl.flatten([val]):
+            if isinstance(item, xlerrors.ExcelError):
+                return item
             if func_xltypes.Blank.is_blank(item):
                 continue
             if bool(item):
@@ -78,7 +82,10 @@ def IF(
     """
     # Use delayed evaluation to only evaluate the true or false value but not
     # both.
-    return value_if_true() if logical_test() else value_if_false()
+    condition = logical_test()
+    if isinstance(condition, xlerrors.ExcelError):
+        return condition
+    return value_if_true() if condition else value_if_false()
 
 
 @xl.register()
@@ -89,7 +96,10 @@ def NOT(logical: func_xltypes.XlExpr) -> func_xltypes.XlBoolean:
     https://support.microsoft.com/en-us/office/
         not-function-9cfc6011-a054-40c7-a140-cd4ba2d87d77
     """
-    return not bool(logical())
+    value = logical()
+    if isinstance(value, xlerrors.ExcelError):
+        return value
+    return not bool(value)
 
 
 @xl.register()
